@@ -261,13 +261,19 @@ CHECKS["C15"] = dict(
 
 CHECKS["C04"] = dict(
     category="proof", design_ref="DESIGN.md §6 C04", engine="exec (enumeration, hook H2)",
-    technique="Lean 4: total executable model of every registered command (fact F1 regenerated from the source and closed by decide) + bounded-exhaustive enumeration of the property's quantifier through the real executors against that model, with lock-balance check of every trace",
+    technique="Lean 4: total executable model of every registered command (fact F1 regenerated from the source and closed by decide) + index-safety obligations over the source's own guards (fact F3: go/ast + go/types extractor, closed by decide in Props/C04Sites) + bounded-exhaustive enumeration of the property's quantifier through the real executors against that model, with lock-balance check of every trace",
     text="Every command of the model is a total Lean function, so the model cannot crash or hang on any input; Exec.all_registered_modelled is re-proved on "
          "every run against the command list extracted from the Go source, so a newly registered command must be modelled. The implementation is compared "
          "with the model on every registered command x arity 0-2 exhaustively over an adversarial alphabet and keys of every type (arities 3-6 sampled): "
          "panics (recovered by the harness), non-returning executors (watchdog), nil replies, wrong replies, corrupted state and unbalanced locks are all "
-         "mismatches; each program then checks that old and new keys still answer.",
-    note="Partial: the Go executors' panic-freedom rests on the enumeration, not on a theorem about Go code; process liveness over TCP is runtime. Trusted: Lean kernel, harness recover()/watchdog, hook H2.",
+         "mismatches; each program then checks that old and new keys still answer. Fact F3, regenerated on every run: every index, slice, "
+         "non-comma-ok type assertion, make with a computed size and integer division of memdb/server/resp/util/raftexample is extracted with the "
+         "minimum length the guards on every path to it guarantee; Sites.const_sites_safe / rel_sites_safe / executor_entry_safe re-prove needed <= guaranteed "
+         "for every guarded site (a cmd[3] behind len(cmd) < 3 breaks the build), Sites.dynamic_inventory pins the unguarded sites to a hand-reviewed list; "
+         "a broken obligation aims the enumeration at the executors concerned and is reported with the crashing vector, or as no-failing-input-found.",
+    note="Partial: panic-freedom of the Go executors is a theorem only as far as fact F3 reaches - Lean-checked arithmetic over guards extracted by harness/sites.go (trusted, not verified) "
+         "for the guarded index/slice/division sites, a reviewed inventory + the enumeration for the others; nil dereferences and explicit panics are not inventoried; process liveness over TCP is runtime. "
+         "Trusted: Lean kernel, harness recover()/watchdog, hook H2, the extractor.",
 )
 
 CHECKS["C16"] = dict(
